@@ -199,13 +199,15 @@ ADD2 = {
         "K-C01-11; FROM-clause navigation for the JOIN spelling proved in Tree/LemmaAGroup2.v), K-C01-12 (set operation with a parenthesised operand inside IN). "
         "Layout suites T3-render-path and T3-render-chain+group.",
  "C02": " MERGE with a derived-table source proved (c02_exact_on_update_and_merge_incl_derived_source, Tree/LemmaBDmlDerived{,2}.v); CTE chains at "
-        "column level: stated and tested only (Tree/LemmaBChain.v).",
+        "column level: length 1 proved through the chain renderer, the general statement refuted (K-C02-14: a literal item of a CTE "
+        "definition is reported as a source) and the repaired one tested only (Tree/LemmaBChain{,2}.v); SELECT .. INTO at column level "
+        "(c02_exact_on_select_into).",
  "C04": " Round 6: the end-to-end script theorem now covers statements with expression items (c04_script_exact_on_core_with_expressions, "
         "Tree/ScriptExactExpr.v) and scripts that also contain UPDATE / MERGE statements and plain SELECTs with expressions "
         "(c04_script_exact_with_update_and_merge, Tree/ScriptExactDml.v; roles: c03_script_roles_exact_with_update_merge_select_into); suite S3x compares the implementation with spec_script_pairs on "
         "scripts with expression items; scenarios with unqualified staging tables and positional INSERT into a table created earlier.",
  "C06": " Round 6: c06_script_paths_well_formed_with_expressions (scripts of statements with expression items); "
-        "c06_script_paths_well_formed_with_update_and_merge_partial (two extra executable guards per DML statement).",
+        "c06_script_paths_well_formed_with_update_and_merge (scripts that also contain UPDATE / MERGE; guard dml_ok per DML statement).",
  "C03": " Round 6: c03_script_roles_exact_with_update_merge_select_into (Tree/ScriptRolesDml.v; needed the new invariant theorem "
         "c03_merge_holders_are_well_formed for the MERGE extractor, any tree). Every statement of a generated script is also analysed on its own and its reads/writes compared with those it has inside the script.",
  "C08": " Round 6: several qualified stars over relations sharing a column name; table alias with a derived column list x AS keyword (found and repaired, fix 62bbb18: "
@@ -215,6 +217,8 @@ ADD2 = {
  "C13": " Round 6: c13_exact_tables_any_provider_update_merge_select_into and c13_metadata_never_changes_tables_of_update_merge "
         "(Tree/LemmaADmlMeta.v): UPDATE / MERGE / SELECT INTO under an arbitrary catalog; c13_exact_tables_any_provider_with_expressions, "
         "c13_metadata_never_changes_tables_with_expressions (Tree/LemmaAExprMeta.v): the expression fragment at every depth.",
+ "C14": " Round 6: c14_spec_default_is_qualification_update_merge, c14_default_is_qualification_update_merge, "
+        "c14_default_is_qualification_with_expressions (Tree/QualifyNew.v; guards of the qualified statement as hypotheses).",
  "C17": " Overlapped requests (a second request served completely while the first reads its body) must get the answer they get alone.",
  "C18": " The text summary is compared with the roles the EXPORTED table graph shows (not with the accessors).",
 }
